@@ -23,7 +23,10 @@ func closeRel(a, b float64) bool {
 // buildByHistory produces a Database whose Commands equal cmds through one of the
 // documented histories, and reports which one.
 func buildByHistory(t *rapid.T, cmds []database.Command, o gen.CmdOpts) (*database.Database, string) {
-	hist := rapid.SampledFrom([]string{"load", "merge", "replace", "grow", "edit-grow"}).Draw(t, "history")
+	hist := rapid.SampledFrom([]string{"load", "merge", "replace", "grow", "edit-grow", "empty-refill"}).Draw(t, "history")
+	if hist == "empty-refill" && len(cmds) == 0 {
+		hist = "load"
+	}
 	if hist == "edit-grow" && len(cmds) < 3 {
 		hist = "grow"
 	}
@@ -52,6 +55,26 @@ func buildByHistory(t *rapid.T, cmds []database.Command, o gen.CmdOpts) (*databa
 		src := gen.Load(t, cmds) // commands as real callers have them (cache fields populated)
 		cdb.UpdateDatabase(src.Commands)
 		return cdb.Database, hist
+	case "empty-refill":
+		// a searched database is emptied, searched while empty, and refilled with as many (other) entries
+		old := make([]database.Command, len(cmds))
+		for i := range old {
+			old[i] = gen.Command(o).Draw(t, "old-entry")
+		}
+		db := gen.Load(t, old)
+		db.SearchUniversal("find files", database.SearchOptions{Limit: 5, UseNLP: true})
+		if rapid.Bool().Draw(t, "nil-list") {
+			db.Commands = nil
+		} else {
+			db.Commands = db.Commands[:0]
+		}
+		for i := rapid.IntRange(1, 2).Draw(t, "searches-while-empty"); i > 0; i-- {
+			if r := db.SearchUniversal("find files", database.SearchOptions{Limit: 5, UseNLP: i == 1, UseFuzzy: true}); len(r) != 0 {
+				t.Fatalf("a search of an emptied database returned %d results", len(r))
+			}
+		}
+		db.Commands = append(db.Commands, gen.Load(t, cmds).Commands...)
+		return db, hist
 	case "edit-grow":
 		// a searched database whose entries are then rewritten IN PLACE (same backing array, spare
 		// capacity: the filter idiom `kept := list[:0]`, or overwriting elements) and extended
@@ -279,8 +302,8 @@ func c03Property(t *rapid.T) {
 func TestC03_Scan(t *testing.T) {
 	r := stat.For("C03")
 	r.Rule("database (any field contents, duplicates, empty fields, Unicode pool) x history in {load, merge main+notebook, CachedDatabase.UpdateDatabase, direct growth of Commands} x query from the database vocabulary x per-term boosts x pipeline-only; NLP and fuzzy off, Limit >= N. Oracle: independent tokenizer + BM25F scorer over the command texts (set equality both ways; scores within 1e-9 relative for distinct query terms; the weaker first-four claim for >10 content words) and equality with a freshly loaded database (NLP off and on). Non-trivial = result set neither empty nor everything.")
-	for _, h := range []string{"load", "merge", "replace", "grow", "edit-grow"} {
-		r.RequireShare("history:"+h, 0.08)
+	for _, h := range []string{"load", "merge", "replace", "grow", "edit-grow", "empty-refill"} {
+		r.RequireShare("history:"+h, 0.07)
 	}
 	r.RequireShare("multi-field-hit", 0.20)
 	r.RequireShare("ubiquitous-term-25+", 0.02)
